@@ -52,6 +52,10 @@ def check(chk: Check) -> None:
     for n, r in lm.rules.items():
         if LM.first_chars_can(r.parsed, '#') and r.returns_token != 'never':
             chk.bad(R1, 't_%s at #' % n, lexrel, 'rule %s matches at the comment character and returns a token' % n)
+    # blanks between tokens: a rule whose match can contain an ignored character must not start where other tokens would have
+    # ended - otherwise `x<blank>y` and `xy` (both cut into tokens between x and y) give different token streams.  Decided on
+    # the rule regexes by a bounded search: every start u of up to 2 (thorough: 3) characters, one blank, one more character.
+    _token_gaps(chk, R1, lm, lexrel)
     NL = LF.newline_rule(lm)
     rm = lm.rules[NL]
     where = '%s:%d' % (lexrel, rm.rule.line)
@@ -317,6 +321,85 @@ def check(chk: Check) -> None:
         good = fd.get(nf, ())[:2] == ('tok', '1') and fd.get(af, ())[:2] == ('symlist', '3')
         chk.require(good, R6, 'template ' + t.key, '%s:%d' % (g.module.rel, t.prod.line),
                     'call(name = NAME, args = the argument list as written): f(r, a) and r.f(a) coincide' if good else 'plain call builds %s' % t.show())
+
+
+def _regex_alphabet(lm) -> List[str]:
+    import re._constants as K
+    out: Set[str] = set('aZ1_')
+
+    def walk(p):
+        for op, av in p:
+            if op is K.LITERAL:
+                out.add(chr(av))
+            elif op is K.IN:
+                for o2, a2 in av:
+                    if o2 is K.LITERAL:
+                        out.add(chr(a2))
+                    elif o2 is K.RANGE:
+                        out.add(chr(a2[0]))
+            elif op is K.BRANCH:
+                for a in av[1]:
+                    walk(a)
+            elif op is K.SUBPATTERN:
+                walk(av[3])
+            elif op in (K.MAX_REPEAT, K.MIN_REPEAT):
+                walk(av[2])
+            elif op in (K.ASSERT, K.ASSERT_NOT):
+                walk(av[1])
+    for n in lm.order:
+        walk(lm.rules[n].parsed)
+    return sorted(c for c in out if c not in lm.spec.ignore and c not in '\r\n' and ord(c) < 128)
+
+
+def _token_gaps(chk: Check, R1: str, lm, lexrel: str) -> None:
+    import os
+    blanks = [c for c in lm.spec.ignore if c in ' \t']
+    sigma = _regex_alphabet(lm)
+    deep = os.environ.get('VERIF_TIER') == 'thorough'
+    emitted = {n for n in lm.order if lm.rules[n].returns_token != 'never'}
+
+    def stream(toks):
+        return [(n, t) for n, t, _ in toks if n in emitted]
+    for n in lm.order:
+        rm = lm.rules[n]
+        if not any(LM.can_contain(rm.parsed, w) for w in blanks):
+            continue
+        first = [c for c in sigma if LM.first_chars_can(rm.parsed, c)]
+        tails = [''] + sigma + ([a + b for a in sigma for b in sigma] if deep else [])
+        wit = None
+        tried = 0
+        try:
+            for c in first:
+                for t in tails:
+                    u = c + t
+                    for w in blanks:
+                        for ext in sigma:
+                            s1 = u + w + ext
+                            e = LM.match_end(rm.parsed, s1, 0)
+                            if e is None or e <= len(u):
+                                continue
+                            tried += 1
+                            t0 = lm.tokenise(u + ext)
+                            if t0 is None or not any(pos == len(u) for _, _, pos in t0):
+                                continue          # u|ext is not a gap between two tokens of the unspaced text
+                            t1 = lm.tokenise(s1)
+                            if t1 is None or stream(t0) != stream(t1):
+                                wit = (u + ext, s1, stream(t0), None if t1 is None else stream(t1))
+                                break
+                        if wit:
+                            break
+                    if wit:
+                        break
+                if wit:
+                    break
+        except LM.RegexNotModelled as ex:
+            raise AnalysisError('lexer: regex construct not modelled by the token-gap search: %s' % ex)
+        chk.require(wit is None, R1, 't_%s across blanks' % n, '%s:%d' % (lexrel, rm.rule.line),
+                    'its match can contain blanks, but never starts at a place where the text without the blank is cut into '
+                    'other tokens (%d spanning matches examined)' % tried if wit is None else
+                    'a blank between two tokens changes the token stream: %r lexes as %s but %r lexes as %s' % (
+                        wit[0], ' '.join(x for x, _ in wit[2]) or '<nothing>', wit[1],
+                        'an error' if wit[3] is None else (' '.join(x for x, _ in wit[3]) or '<nothing>')))
 
 
 def trailing_comma_pairs(g, lm) -> List[Tuple[Any, Any]]:
